@@ -68,6 +68,16 @@ def opt_fv(isnone, term, wrap):
     return If(isnone, FV.fnone, wrap(term))
 
 
+
+def own_outbox_summary(S0, S1, me):
+    """what onMessage needs to know about this handler's frames to the acting connection: earlier
+    frames stay, and if anything was sent the last frame is a `message`"""
+    n0, n1 = S0.out_len[me], S1.out_len[me]
+    return And(n1 >= n0,
+               FA([INT], lambda i: Implies(And(0 <= i, i < n0), S1.out_buf[me][i] == S0.out_buf[me][i]),
+                  pats=lambda i: [S1.out_buf[me][i]]),
+               Implies(n1 > n0, S1.out_buf[me][n1 - 1][S("type")] == FV.fstr(S("message"))))
+
 # ---------------------------------------------------------------- what every handler may assume / must re-establish
 def conn_ok(S, me):
     """per-connection invariant of the acting connection between commands"""
@@ -92,6 +102,12 @@ def event_pre(c):
     yield "GH4", HI.GH4(S)
     yield "GH5", HI.GH5(S)
     yield "conn_ok", conn_ok(S, c.self_ref)
+    yield "outbox_wf", outbox_wf(S)
+
+
+def outbox_wf(S):
+    """ghost outboxes have a non-negative length"""
+    return FA([INT], lambda cn: S.out_len[cn] >= 0, pats=lambda cn: [S.out_len[cn]])
 
 
 def event_post(c, tags=("C17", "C10", "C02")):
@@ -103,6 +119,7 @@ def event_post(c, tags=("C17", "C10", "C02")):
     yield "preserves.GH4", HI.GH4(S), list(tags)
     yield "preserves.GH5", HI.GH5(S), list(tags)
     yield "preserves.conn_ok", conn_ok(S, c.self_ref), list(tags)
+    yield "preserves.outbox_wf", outbox_wf(S), list(tags)
 
 
 ALL_DB = [NP, NS, MB, MS, MSG, UNP, UMB, UCV, "us.current", "in_tx.ch", "in_tx.us", "np_next"]
@@ -542,14 +559,16 @@ def _(c):
             FA([INT], lambda j: Implies(And(0 <= j, j < N), And(own(rid[j]), idx[rid[j]] == j,
                                                                 fr_of_row(S1.out_buf[me][n0 + j], rid[j])))),
             FA([INT], lambda r: Implies(own(r), And(0 <= idx[r], idx[r] < N, rid[idx[r]] == r))),
-            FA([INT], lambda i: Implies(And(0 <= i, i < n0), S1.out_buf[me][i] == S0.out_buf[me][i])))
+            FA([INT], lambda i: Implies(And(0 <= i, i < n0), S1.out_buf[me][i] == S0.out_buf[me][i]),
+               pats=lambda i: [S1.out_buf[me][i]]))
     g = c.ghost("Mailbox.add_listener")
     if g is not None:
         # proving: the bijection between new frames and stored rows is the enumeration add_listener returned
-        yield "replay_exact", replay(g.origin.rid, g.origin.idx), ["C01", "C06"]
+        yield "replay_exact", replay(g.origin.rid, g.origin.idx), ["C01", "C06"], None, {"assume": False}
     else:
-        yield "replay_exact", EX([ArraySort(INT, INT), ArraySort(INT, INT)], replay), ["C01", "C06"]
+        yield "replay_exact", EX([ArraySort(INT, INT), ArraySort(INT, INT)], replay), ["C01", "C06"], None, {"assume": False}
     yield "others_silent", others_silent(S0, S1, me), ["C01", "C02", "C05"]
+    yield "own_outbox", own_outbox_summary(S0, S1, me), ["C17"]
     yield from event_post(c)
 
 
@@ -581,7 +600,8 @@ def _(c, L):
     lst = L.seq
     yield "count", S_.out_len == Store(E.out_len, me, n0 + L.k)
     yield "others", FA([INT], lambda cn: Implies(cn != me, S_.out_buf[cn] == E.out_buf[cn]))
-    yield "prefix", FA([INT], lambda i: Implies(And(0 <= i, i < n0), S_.out_buf[me][i] == E.out_buf[me][i]))
+    yield "prefix", FA([INT], lambda i: Implies(And(0 <= i, i < n0), S_.out_buf[me][i] == E.out_buf[me][i]),
+                       pats=lambda i: [S_.out_buf[me][i]])
     yield "sent", FA([INT], lambda j: Implies(And(0 <= j, j < L.k), is_message_frame(S_.out_buf[me][n0 + j], lst.at(j))))
 
 
@@ -624,6 +644,7 @@ def _(c):
     yield "touch", is_update(S0.t(MB), S1.t(MB), lambda r: r.id == m, {"updated": c.a.t("server_rx")}), ["C12"]
     # C02: exactly the connections subscribed to (app, mailbox) get the message, once; nobody else gets anything
     yield "fanout_is_Sub", fanout(S0, S1, lambda cn: HI.subscribed(S0, cn, M), sm), ["C02", "C06"]
+    yield "own_outbox", own_outbox_summary(S0, S1, me), ["C17"]
     yield from event_post(c)
 
 
@@ -694,3 +715,97 @@ def _(c):
     yield "crowded_not_subscribed", And(cf(S1, "_mailbox")[me] == 0, LS(S1) == LS(S0), unchanged(c, ["out"]))
     for it in event_post(c):
         yield it[0], it[1]
+
+
+# ---------------------------------------------------------------- onMessage (the `cmd` event)
+from pvc.contract import REGISTRY as _R     # noqa: E402
+
+EVERYTHING = sorted(set(ALL_DB + ALL_HEAP + ["out"]))
+c = contract("server_websocket.WebSocketServer.onMessage", cls="WebSocketServer",
+             params={"payload": "msg", "isBinary": "bool"}, modifies=EVERYTHING,
+             tags=["C17", "C09", "C10", "C02", "C05"])
+c.requires(event_pre)
+
+HANDLERS = {"ping": "handle_ping", "bind": "handle_bind", "list": "handle_list", "allocate": "handle_allocate",
+            "claim": "handle_claim", "release": "handle_release", "open": "handle_open", "add": "handle_add",
+            "close": "handle_close"}
+NEEDS_BIND = [t for t in HANDLERS if t not in ("ping", "bind")]
+
+
+@c.requires
+def _(c):
+    # F2 (open finding): the ids named by open/close are not ids of another app's mailbox
+    S0 = c.pre
+    me = c.self_ref
+    msg = c.a.payload
+    app = cf(S0, "_app")[me]
+    a = hp(S0, "AppNamespace._app_id")[app]
+    ty = msg.val("type").t
+    sub = Ctx(S0, S0, {"msg": msg, "server_rx": VZ(RealVal(0), "real")}, me, "WebSocketServer")
+    yield "F2_excluded", Implies(And(msg.has("type"), app != 0), And(
+        Implies(And(ty == S("open"), cf(S0, "_mailbox")[me] == 0, msg.has("mailbox")),
+                AN.id_not_foreign(S0, a, msg.val("mailbox").t)),
+        Implies(And(ty == S("close"), close_valid(sub), cf(S0, "_mailbox")[me] == 0),
+                AN.id_not_foreign(S0, a, close_target(sub)))))
+
+
+def err_frame(fr, explain, msg):
+    return is_frame(fr, "error", {"error": FV.fstr(S(explain)), "orig": FV.fjson(msg.whole)})
+
+
+def ack_frame(fr, msg):
+    idv = If(msg.has("id"), FV.fjson(msg.val("id").t), FV.fnone)
+    return is_frame(fr, "ack", {"id": idv})
+
+
+def misuse_cases(c):
+    """(label, explain, condition on the pre-state and the command) for every malformed or
+    out-of-order command the property lists; collected from the handlers' misuse clauses"""
+    S0 = c.pre
+    me = c.self_ref
+    msg = c.a.payload
+    ty = msg.val("type").t
+    isbound = cf(S0, "_app")[me] != 0
+    known = [ty == S(t) for t in HANDLERS]
+    yield "must_bind_first", "must bind first", And(msg.has("type"), Or(*[ty == S(t) for t in NEEDS_BIND]), Not(isbound))
+    yield "unknown_type", "unknown type", And(msg.has("type"), Not(Or(*known)), isbound)
+    yield "unknown_type_unbound", "must bind first", And(msg.has("type"), Not(Or(*known)), Not(isbound))
+    sub = Ctx(S0, S0, {"msg": msg, "server_rx": VZ(RealVal(0), "real")}, me, "WebSocketServer")
+    for t, h in HANDLERS.items():
+        con = _R["server_websocket.WebSocketServer." + h]
+        for exc, name, fn, fields, tags, iff in con._raises:
+            if exc != "Error" or name in ("crowded", "reclaimed"):
+                continue
+            when = [it[1] for it in fn(sub) if it[0] == "when"][0]
+            gate = msg.has("type") if t in ("ping", "bind") else And(msg.has("type"), isbound)
+            yield "%s.%s" % (t, name), fields["_explain"], And(gate, ty == S(t), when)
+
+
+@c.ensures
+def _(c):
+    S0, S1 = c.pre, c.post
+    me = c.self_ref
+    msg = c.a.payload
+    n0, n1 = S0.out_len[me], S1.out_len[me]
+    buf = S1.out_buf[me]
+    rest = [k for k in EVERYTHING if k != "out"]
+    yield "no_type", Implies(Not(msg.has("type")), And(
+        only_me_gets(S0, S1, me, [lambda fr: err_frame(fr, "missing 'type'", msg)]), unchanged(c, rest))), ["C17"]
+    yield "ack_first", Implies(msg.has("type"), And(n1 >= n0 + 1, ack_frame(buf[n0], msg),
+                                                    FA([INT], lambda i: Implies(And(0 <= i, i < n0),
+                                                                                buf[i] == S0.out_buf[me][i])))), ["C17"]
+    for label, explain, cond in misuse_cases(c):
+        # answered by ack + exactly one error frame holding the original message; nothing stored changes,
+        # nobody else is told anything, the connection's own state is as before (still usable)
+        yield "misuse." + label, Implies(cond, And(
+            only_me_gets(S0, S1, me, [lambda fr: ack_frame(fr, msg), lambda fr, e=explain: err_frame(fr, e, msg)]),
+            unchanged(c, rest))), ["C17"]
+    last = buf[n1 - 1]
+    harmless = And(msg.has("type"), last[S("type")] == FV.fstr(S("error")),
+                   last[S("error")] != FV.fstr(S("crowded")), last[S("error")] != FV.fstr(S("reclaimed")))
+    yield "error_means_no_change", Implies(harmless, And(n1 == n0 + 2, last[S("orig")] == FV.fjson(msg.whole),
+                                                         others_silent(S0, S1, me), unchanged(c, rest))), ["C17"]
+    yield "ping_pong", Implies(And(msg.has("type"), msg.val("type").t == S("ping"), msg.has("ping")),
+                               only_me_gets(S0, S1, me, [lambda fr: ack_frame(fr, msg), lambda fr: is_frame(
+                                   fr, "pong", {"pong": FV.fjson(msg.val("ping").t)})])), ["C17"]
+    yield from event_post(c)
